@@ -436,82 +436,130 @@ func numEqF(a, b string) Formula {
 func checkGroupArm(c *Ctx, rule string, fi *FuncInfo, rs *ast.RangeStmt, ownRIB types.Object) {
 	info := fi.Pkg.TypesInfo
 	gv := objOfIdent(info, rs.Value)
-	// the member loop
-	var inner *ast.RangeStmt
+	// the member loops (a validation pass and a resolution pass may be separate loops)
+	var inners []*ast.RangeStmt
 	for _, st := range rs.Body.List {
 		if r2, ok := st.(*ast.RangeStmt); ok {
 			if se, ok := ast.Unparen(r2.X).(*ast.SelectorExpr); ok && se.Sel.Name == "NextHop" && objOfIdent(info, se.X) == gv {
-				inner = r2
+				inners = append(inners, r2)
 			}
 		}
 	}
-	if inner == nil {
+	if len(inners) == 0 {
 		c.vanished(rule, fi.Name, "group arm member loop", "no loop over the group's NextHop members")
 		return
 	}
-	mv := objOfIdent(info, inner.Value)
-	ev := func(n ast.Node) []Event {
-		var out []Event
-		for _, call := range callsIn(n) {
-			if isMethod(calleeObj(info, call), ribPkg, "RIBHolder", "GetNextHop") {
-				se := ast.Unparen(call.Fun).(*ast.SelectorExpr)
-				d := &addEvData{call: call, args: call.Args}
-				if as := assignedFromCall(info, n, call); len(as) == 2 {
-					d.ok = as[1]
+	good, why := true, ""
+	nPaths := 0
+	validatedAt, resolvedAt, firstSoft := -1, -1, -1
+	mixed := -1
+	for li0, inner := range inners {
+		mv := objOfIdent(info, inner.Value)
+		ev := func(n ast.Node) []Event {
+			var out []Event
+			for _, call := range callsIn(n) {
+				if isMethod(calleeObj(info, call), ribPkg, "RIBHolder", "GetNextHop") {
+					se := ast.Unparen(call.Fun).(*ast.SelectorExpr)
+					d := &addEvData{call: call, args: call.Args}
+					if as := assignedFromCall(info, n, call); len(as) == 2 {
+						d.ok = as[1]
+					}
+					own := objOfIdent(info, se.X) == ownRIB
+					key := ""
+					if len(call.Args) == 1 {
+						key = resolveKeyLocal(info, call.Args[0])
+					}
+					kind := "lookup"
+					if !own {
+						kind = "lookup-foreign"
+					}
+					if mv == nil || key != mv.Name()+".Index" {
+						kind = "lookup-otherkey"
+					}
+					out = append(out, Event{Kind: kind, Node: call, Data: d})
 				}
-				own := objOfIdent(info, se.X) == ownRIB
-				key := ""
-				if len(call.Args) == 1 {
-					key = resolveKeyLocal(info, call.Args[0])
-				}
-				kind := "lookup"
-				if !own {
-					kind = "lookup-foreign"
-				}
-				if mv == nil || key != mv.Name()+".Index" {
-					kind = "lookup-otherkey"
-				}
-				out = append(out, Event{Kind: kind, Node: call, Data: d})
 			}
+			return out
 		}
-		return out
-	}
-	paths, pe := enumPaths(info, inner.Body.List, ev)
-	good, why := !pe.overflow, ""
-	for _, p := range paths {
-		out := defaultOutcomeNoEv(info, fi.Decl, p)
-		li := idx(p, "lookup")
-		switch p.End {
-		case "return":
-			zero := mv != nil && p.Entails(numEqF(varKey(mv)+".Index", "const:0"))
-			if zero && out == "ret(false, err(plain))" {
-				continue
-			}
-			if li >= 0 && out == "ret(false, nil)" {
-				d := p.Events[li].Data.(*addEvData)
-				if d.ok != nil && factsAfter(info, p, li, len(p.Events)).Obj(d.ok) == -1 {
+		paths, pe := enumPaths(info, inner.Body.List, ev)
+		nPaths += len(paths)
+		if pe.overflow {
+			good, why = false, "path enumeration incomplete"
+		}
+		hasFatal, hasSoft := false, false
+		allValidated, allResolved := len(paths) > 0, len(paths) > 0
+		for _, p := range paths {
+			out := defaultOutcomeNoEv(info, fi.Decl, p)
+			li := idx(p, "lookup")
+			switch p.End {
+			case "return":
+				zero := mv != nil && p.Entails(numEqF(varKey(mv)+".Index", "const:0"))
+				if zero && out == "ret(false, err(plain))" {
+					hasFatal = true
 					continue
 				}
-			}
-			good, why = false, "return inside the member loop other than (zero index → error) or (member missing → not resolvable): "+p.describe(c.P)+" yields "+out
-		case "fall", "continue":
-			// the member must have been found in the group's own instance
-			if li < 0 {
-				good, why = false, "a member is accepted without being looked up in the group's own network instance: "+p.describe(c.P)
-				continue
-			}
-			d := p.Events[li].Data.(*addEvData)
-			if d.ok == nil || factsAfter(info, p, li, len(p.Events)).Obj(d.ok) != +1 {
-				good, why = false, "a member is accepted although the lookup did not succeed: "+p.describe(c.P)
-			}
-			if mv == nil || !p.Entails(fnot(numEqF(varKey(mv)+".Index", "const:0"))) {
-				good, why = false, "a member with index 0 is not rejected: "+p.describe(c.P)
+				if li >= 0 && out == "ret(false, nil)" {
+					d := p.Events[li].Data.(*addEvData)
+					if d.ok != nil && factsAfter(info, p, li, len(p.Events)).Obj(d.ok) == -1 {
+						hasSoft = true
+						continue
+					}
+				}
+				good, why = false, "return inside the member loop other than (zero index → error) or (member missing → not resolvable): "+p.describe(c.P)+" yields "+out
+			case "fall", "continue":
+				if li < 0 {
+					allResolved = false
+				} else {
+					d := p.Events[li].Data.(*addEvData)
+					if d.ok == nil || factsAfter(info, p, li, len(p.Events)).Obj(d.ok) != +1 {
+						good, why = false, "a member is accepted although the lookup did not succeed: "+p.describe(c.P)
+					}
+				}
+				if mv == nil || !p.Entails(fnot(numEqF(varKey(mv)+".Index", "const:0"))) {
+					allValidated = false
+				}
+			case "break":
+				good, why = false, "the member loop can be left early: "+p.describe(c.P)
 			}
 		}
+		if allValidated && validatedAt < 0 {
+			validatedAt = li0
+		}
+		if allResolved && resolvedAt < 0 {
+			resolvedAt = li0
+		}
+		if hasSoft && firstSoft < 0 {
+			firstSoft = li0
+		}
+		if hasFatal && hasSoft && mixed < 0 {
+			mixed = li0
+		}
 	}
-	c.check(good, rule, fi.Name, "group: every member present in the group's own instance", c.P.pos(inner.Pos()),
-		fmt.Sprintf("%d paths through the member loop; only failures return from inside it", len(paths)), why)
-
+	switch {
+	case !good:
+	case validatedAt < 0:
+		good, why = false, "a member with index 0 is not rejected: no member loop lets only non-zero indices pass"
+	case resolvedAt < 0:
+		good, why = false, "a member is accepted without being looked up in the group's own network instance"
+	}
+	c.check(good, rule, fi.Name, "group: every member present in the group's own instance", c.P.pos(inners[0].Pos()),
+		fmt.Sprintf("%d paths through %d member loop(s); only failures return from inside", nPaths, len(inners)), why)
+	// the members are a map: a loop that can leave with the fatal verdict for one member and with the
+	// "not yet" verdict for another gives an answer that depends on the iteration order — a group with
+	// members {0, missing} is answered FAILED on one run and silently held on the next. Every member must
+	// have passed the fatal test before any member can produce the soft verdict.
+	c.Sites++
+	c.check(mixed < 0 && (firstSoft < 0 || (validatedAt >= 0 && validatedAt < firstSoft)), rule, fi.Name, "group: the verdict does not depend on the order in which members are visited", c.P.pos(inners[0].Pos()),
+		"all members are validated (index 0 is fatal) before any member can yield \"not resolvable yet\"",
+		"the loop over the group's members (a map, visited in random order) returns the fatal error for a zero index and \"not resolvable yet\" for a missing member from the same pass: a group naming next-hops {0, 5} with 5 not installed is answered FAILED or silently held depending on the iteration order")
+	isInner := func(n ast.Node) *ast.RangeStmt {
+		for _, in := range inners {
+			if in == n {
+				return in
+			}
+		}
+		return nil
+	}
 	// around the member loop: zero id and empty group are errors, after the loop the verdict is (true, nil)
 	evNone := func(ast.Node) []Event { return nil }
 	op, _ := enumPaths(info, rs.Body.List, evNone)
@@ -525,11 +573,11 @@ func checkGroupArm(c *Ctx, rule string, fi *FuncInfo, rs *ast.RangeStmt, ownRIB 
 		out := defaultOutcomeNoEv(info, fi.Decl, p)
 		insideInner := false
 		for _, cs := range p.Conds {
-			if cs.Label == "loop×1" && cs.Node == inner {
+			if in := isInner(cs.Node); cs.Label == "loop×1" && in != nil && p.EndNode.Pos() >= in.Body.Pos() && p.EndNode.End() <= in.Body.End() {
 				insideInner = true
 			}
 		}
-		if insideInner && p.EndNode.Pos() >= inner.Body.Pos() && p.EndNode.End() <= inner.Body.End() {
+		if insideInner {
 			continue // judged above
 		}
 		zeroID := gv != nil && p.Entails(numEqF(varKey(gv)+".Id", "const:0"))
